@@ -12,7 +12,8 @@
          '{' '<' '}' '>' '[' ']' and the double quote; a variable name is not empty
        - a printed path is at most 255 units long (VariableTag::Length is limited to 8 bits by parse)
        - a loop head is at most 255 units long (ValueOffset / GroupOffset are 8-bit fields)
-       - loops nest at most 255 deep (Level is an 8-bit field)
+       - a loop is opened with at most 255 tags (loops, ifs) open around it (Level is an 8-bit field; since findings/D91
+         a deeper loop is left as text by parse)
        - "choose a unique name": if the value name of an enclosing loop is a prefix of the printed
          path of a variable (or of a loop's set) with an index in its body, it IS the variable's name
    * [build]: the tag tree (TparseModel.tag) the parser builds for the printed text of such an AST:
@@ -108,7 +109,7 @@ Fixpoint wf_node1 (names : list (list N)) (depth : nat) (n : tnode) {struct n} :
     match f with Some fl => forallb inl_ok fl && forallb (wf_node1 names (S depth)) fl | None => true end &&
     N.leb (N.of_nat (length (print_node n))) 65535 && (ntags t + match f with Some fl => ntags fl | None => 0 end <=? 255)
   | TLoop set val group sort body =>
-    (depth <? 255) &&
+    (depth <=? 255) &&
     match set with Some p => wf_path p && uniq names p | None => true end &&
     wf_name val && wf_name group && N.leb sort 2 && (head_len set val group sort <=? 255) &&
     forallb (wf_node1 (val :: names) (S depth)) body
